@@ -250,3 +250,114 @@ def guard_atoms(guards: list[tuple[ast.expr, bool]]) -> set[str]:
         for atom, p in conj_atoms(test, pol):
             out.add(canon_atom(atom, p))
     return out
+
+
+def _dnf(test: ast.expr, polarity: bool) -> list[list[tuple[ast.expr, bool]]]:
+    """Disjunctive normal form of `test == polarity`: a list of alternatives, each a list of (atom, polarity)."""
+    if isinstance(test, ast.UnaryOp) and isinstance(test.op, ast.Not):
+        return _dnf(test.operand, not polarity)
+    if isinstance(test, ast.BoolOp):
+        conj = (isinstance(test.op, ast.And) and polarity) or (isinstance(test.op, ast.Or) and not polarity)
+        parts = [_dnf(v, polarity) for v in test.values]
+        if conj:
+            out: list[list[tuple[ast.expr, bool]]] = [[]]
+            for p_ in parts:
+                out = [a + b for a in out for b in p_]
+                if len(out) > 64:
+                    return [[(test, polarity)]]
+            return out
+        return [alt for p_ in parts for alt in p_]
+    return [[(test, polarity)]]
+
+
+def guard_alternatives(guards: list[tuple[ast.expr, bool]]) -> list[set[str]]:
+    """All ways the guard stack can hold: the cross product of the DNFs of the individual guards, as canonical atom sets.
+    (`guard_atoms` is the intersection of these - what holds on every alternative.)"""
+    alts: list[set[str]] = [set()]
+    for test, pol in guards:
+        d = _dnf(test, pol)
+        new = []
+        for a in alts:
+            for alt in d:
+                new.append(a | {canon_atom(x, p_) for x, p_ in alt})
+        alts = new[:256]
+    return alts
+
+
+def run_to(stmts: list[ast.stmt], target: ast.AST, env: dict[str, T.Any]) -> str:
+    """A small interpreter: execute straight-line code with foldable branches up to the statement containing `target`,
+    updating `env` (names -> values; lists support append / extend / +=).  A branch or loop that contains the target is
+    entered (we ask for the state *given that the target is reached*); other branches with an unknown test invalidate what
+    they may write.  Returns 'hit' (env is the state just before the target's statement), 'miss' or 'unknown'."""
+    def contains(node: ast.AST) -> bool:
+        return any(x is target for x in ast.walk(node))
+
+    def forget(node: ast.AST) -> None:
+        for x in ast.walk(node):
+            if isinstance(x, ast.Name) and isinstance(x.ctx, ast.Store):
+                env[x.id] = UNKNOWN
+            elif isinstance(x, ast.Call) and isinstance(x.func, ast.Attribute) and isinstance(x.func.value, ast.Name) and x.func.attr in ("append", "extend", "insert", "pop", "remove", "clear", "update"):
+                env[x.func.value.id] = UNKNOWN
+
+    for st in stmts:
+        compound = isinstance(st, (ast.If, ast.With, ast.AsyncWith, ast.Try, ast.For, ast.AsyncFor, ast.While))
+        if contains(st) and not compound:
+            return "hit"
+        if isinstance(st, (ast.Assign, ast.AnnAssign)):
+            tg = st.targets[0] if isinstance(st, ast.Assign) else st.target
+            if isinstance(tg, ast.Name) and getattr(st, "value", None) is not None:
+                v = peval(st.value, env)
+                env[tg.id] = list(v) if isinstance(v, list) else v
+            elif getattr(st, "value", None) is not None:
+                forget(st)
+        elif isinstance(st, ast.AugAssign) and isinstance(st.target, ast.Name):
+            cur, add = env.get(st.target.id, UNKNOWN), peval(st.value, env)
+            env[st.target.id] = cur + list(add) if isinstance(cur, list) and isinstance(add, (list, tuple)) and isinstance(st.op, ast.Add) else UNKNOWN
+        elif isinstance(st, ast.Expr) and isinstance(st.value, ast.Call) and isinstance(st.value.func, ast.Attribute) and isinstance(st.value.func.value, ast.Name) \
+                and st.value.func.attr in ("append", "extend") and len(st.value.args) == 1:
+            nm = st.value.func.value.id
+            cur, arg = env.get(nm, UNKNOWN), peval(st.value.args[0], env)
+            if isinstance(cur, list) and arg is not UNKNOWN:
+                env[nm] = cur + ([arg] if st.value.func.attr == "append" else list(arg))
+            else:
+                env[nm] = UNKNOWN
+        elif isinstance(st, ast.If):
+            c = peval(st.test, env)
+            if contains(st):
+                if any(x is target for x in ast.walk(st.test)):
+                    return "hit"
+                branch = st.body if any(contains(x) for x in st.body) else st.orelse
+                if c is not UNKNOWN and (st.body if c else st.orelse) is not branch:
+                    return "miss"
+                return run_to(branch, target, env)
+            if c is UNKNOWN:
+                forget(st)
+            else:
+                r = run_to(st.body if c else st.orelse, target, env)
+                if r != "miss":
+                    return r
+        elif isinstance(st, (ast.With, ast.AsyncWith)):
+            if any(x is target for it in st.items for x in ast.walk(it.context_expr)):
+                return "hit"
+            r = run_to(st.body, target, env)
+            if r != "miss":
+                return r
+        elif isinstance(st, ast.Try):
+            if contains(st):
+                for blk in [st.body] + [h.body for h in st.handlers] + [st.orelse, st.finalbody]:
+                    if any(contains(x) for x in blk):
+                        if blk is not st.body:
+                            forget(st)
+                        return run_to(blk, target, env)
+            r = run_to(st.body, target, env)
+            if r != "miss":
+                return r
+            forget(st)
+        elif isinstance(st, (ast.For, ast.AsyncFor, ast.While)):
+            if contains(st):
+                forget(st)       # values carried round the loop are not tracked
+                return run_to(st.body if any(contains(x) for x in st.body) else st.orelse, target, env)
+            forget(st)
+        elif isinstance(st, (ast.Return, ast.Raise)):
+            return "miss"
+    return "miss"
